@@ -34,8 +34,9 @@ ENTRIES = {
         "text": "spec/Formats.tla defines the five Shwap identifiers as big-endian height|row|column|namespace "
                 "slices with their sizes, codecs and multihash codes, decoding (exact length, height >= 1 as 'not all "
                 "height bytes zero', legal namespace) and CID acceptance. TLC enumerates 8 boundary heights (0, 1, 256, "
-                "2^32-1, 2^32, 2^63, u64::MAX-1, u64::MAX as byte strings) x 6 row/column values x 7 namespaces "
-                "(3 legal, 4 illegal) per kind, wrong lengths (each kind's bytes offered to every kind, +-1 byte, "
+                "2^32-1, 2^32, 2^63, u64::MAX-1, u64::MAX as byte strings) x 6 row/column values x 13 namespaces "
+                "(9 legal incl. the least, both reserved thresholds and neighbours, greatest version 0, TAIL_PADDING and "
+                "PARITY_SHARE; 4 illegal) per kind, wrong lengths (each kind's bytes offered to every kind, +-1 byte, "
                 "empty), and for the three kinds with CIDs every combination of 5 codecs x 5 multihash codes x digests "
                 "of all five kinds; it checks encode/decode are inverse and that a CID is accepted as at most one kind, "
                 "and emits accept/reject with the decoded fields. The harness compares decode / TryFrom<Cid> exactly and "
